@@ -115,6 +115,16 @@ func run(c *Ctx) {
 		one(c, []byte(s), false, true, &st)
 		one(c, []byte(s), true, true, &st)
 	}
+	// small structured programs with empty blocks / lists in every position
+	for _, s := range []string{"if a {b} else {}", "if a {} else {}", "if a {} else if b {} else {}", "for a {}", "for i = 1:2 {}", "func(){}", "func f(a){}",
+		"() => {}", "a => {}", "{}", "[]", "f()", "x = {}", "m = macro(){}", "if a {b} else {// only a comment\n}", "return", "f(){}", "print()", "len()", "[[]]", "{1:{}}"} {
+		one(c, []byte(s), false, true, &st)
+		one(c, []byte(s), true, true, &st)
+	}
+	for i := 0; i < 400; i++ {
+		g := &Gen{R: c.R, O: GenOpts{AvoidKnown: i%2 == 0, Comments: i%3 == 0, MaxDepth: 3}}
+		one(c, []byte(g.Program()), i%2 == 0, true, &st)
+	}
 	L := 3
 	if c.Thorough() {
 		L = 4
